@@ -408,6 +408,7 @@ func main() {
 	clonem := flag.Bool("clone", false, "C14: alias correspondence of CloneObject + mutate-after-store probes")
 	conc := flag.Bool("conc", false, "C08: concurrent workloads on one handle (build with -race)")
 	snake := flag.Bool("snake", false, "C18: print camelToSnake of every string over a small alphabet (hex in, hex out)")
+	namesm := flag.Bool("names", false, "C18: uuidExt / uuid test of uuidsFromDir on generated entry names, for the model (driver -names)")
 	descrm := flag.Bool("descr", false, "C16/C17: descriptors of run-time struct types, constraint walks and compatibility verdicts, for the model (driver -descr) + oracles")
 	tagsm := flag.Bool("tags", false, "C16: descriptors derived from struct tags in every option order + end-to-end probes")
 	namedW := flag.String("named-write", "", "C18: write the named-types golden directory (run with the harness built against the pinned release)")
@@ -455,6 +456,11 @@ func main() {
 		for i := 0; i < *n; i++ {
 			runLin(w, *first+i, *seed*1000003+int64(*first+i))
 		}
+		w.Flush()
+		return
+	}
+	if *namesm {
+		runNames(w, *seed, *n)
 		w.Flush()
 		return
 	}
